@@ -118,7 +118,8 @@ func (c *ClientFingerprintConfiguration) WriteToConfig(config *Config) error {
 }
 
 func currentTimestamp() ([]byte, error) {
-	t := time.Now().Unix()
+	// gmt_unix_time is the 32-bit big-endian Unix time (RFC 5246, 7.4.1.2)
+	t := uint32(time.Now().Unix())
 	buf := new(bytes.Buffer)
 	err := binary.Write(buf, binary.BigEndian, t)
 	return buf.Bytes(), err
